@@ -41,16 +41,17 @@ theorem C05_decimal_integer (s rest : List Char) (hs : Spec.isDigitString 10 s =
     simp [lexDecimalInteger, isAsciiDigit_of_digitVal c hc, hrun, hd, horner_eq_posValue, u64OrFailure, two64]
 
 /-- **C05 (decimal integers through `lex_token`)**: a decimal digit string (digits and `_`, starting
-with a digit), followed by a delimiter, lexes to exactly one `Integer` token carrying the positional
-value of its digits when that value is below 2^64 — and is a lexing FAILURE (never a wrapped or
-truncated value, never re-lexed some other way) otherwise. -/
+with a digit), followed by text that does not continue a number (`numStop`: not `0-9 _ . e E`, not a
+radix-prefix letter; every delimiter qualifies, and so does the `i` of `2i`), lexes to exactly one
+`Integer` token carrying the positional value of its digits when that value is below 2^64 — and is a
+lexing FAILURE (never a wrapped or truncated value, never re-lexed some other way) otherwise. -/
 theorem C05_lexToken_decimal (s rest : List Char) (hs : Spec.isDigitString 10 s = true)
-    (hr : delim rest = true) :
+    (hr : numStop rest = true) :
     lexToken (s ++ rest) =
       if Spec.posValue 10 (Spec.digitsOf s) < 2 ^ 64
       then .ok (.integer (Spec.posValue 10 (Spec.digitsOf s))) rest else .failure := by
   have hall := isDigitString_all 10 s hs
-  have hint := C05_decimal_integer s rest hs (delim_stops_num10 rest hr)
+  have hint := C05_decimal_integer s rest hs (numStop_stops_num10 rest hr)
   cases s with
   | nil => simp [Spec.isDigitString] at hs
   | cons c cs =>
@@ -60,19 +61,20 @@ theorem C05_lexToken_decimal (s rest : List Char) (hs : Spec.isDigitString 10 s 
     have hdig := isAsciiDigit_of_digitVal c hc
     obtain ⟨a1, a2, a3, a4, a5, a6, a7⟩ := digit_head_alts c (cs ++ rest) hdig
     -- the second character is not a radix-prefix letter
-    have h2 : ∀ a d r, c :: cs ++ rest = a :: d :: r → isAsciiAlpha d = false := by
-      intro a d r e
+    have h2 : ∀ p, (p = 'b' ∨ p = 'o' ∨ p = 'x') → ∀ a d r, c :: cs ++ rest = a :: d :: r → lowerAscii d ≠ p := by
+      intro p hp a d r e
       cases cs with
       | nil =>
         simp at e
-        exact not_end_not_alpha d (delim_head rest hr d r e.2).1
+        obtain ⟨_, _, _, _, hb, ho, hx⟩ := numStop_head rest hr d r e.2
+        rcases hp with h | h | h <;> subst h <;> assumption
       | cons d' cs' =>
         simp at e
         obtain ⟨_, rfl, _⟩ := e
-        exact numChar10_not_alpha _ (hall _ (by simp))
-    have e2 := lexRadixInteger_error 2 'b' (by simp) _ h2
-    have e8 := lexRadixInteger_error 8 'o' (by simp) _ h2
-    have e16 := lexRadixInteger_error 16 'x' (by simp) _ h2
+        exact lower_ne_of_not_alpha _ p hp (numChar10_not_alpha _ (hall _ (by simp)))
+    have e2 := lexRadixInteger_error2 2 'b' _ (h2 'b' (by simp))
+    have e8 := lexRadixInteger_error2 8 'o' _ (h2 'o' (by simp))
+    have e16 := lexRadixInteger_error2 16 'x' _ (h2 'x' (by simp))
     have hcdot : c ≠ '.' := by
       intro e; subst e; simp [isAsciiDigit] at hdig
     have hdec : lexDecimalNumber (c :: cs ++ rest) =
@@ -89,9 +91,7 @@ theorem C05_lexToken_decimal (s rest : List Char) (hs : Spec.isDigitString 10 s 
           cases rest with
           | nil => rfl
           | cons d r =>
-            have ⟨h1, h2⟩ := delim_head _ hr d r rfl
-            have he : d ≠ 'e' := by intro e; subst e; simp [isEnd, isLeading, isAsciiAlpha] at h1
-            have hE : d ≠ 'E' := by intro e; subst e; simp [isEnd, isLeading, isAsciiAlpha] at h1
+            obtain ⟨_, h2, he, hE, _⟩ := numStop_head _ hr d r rfl
             simp [h2, he, hE]
         · simp only [hv, if_false] at hint ⊢
           rw [hint]
@@ -295,13 +295,13 @@ theorem C05_integer_literal (body rest : List Char) (r : Nat) (ds : List Nat)
           · rename_i hs
             simp at hc
             obtain ⟨rfl, rfl⟩ := hc
-            exact C05_lexToken_decimal _ rest hs hr
+            exact C05_lexToken_decimal _ rest hs (delim_numStop rest hr)
           · exact absurd hc (classifyReal_not_int _ _ _)
   · split at hc
     · rename_i hs
       simp at hc
       obtain ⟨rfl, rfl⟩ := hc
-      exact C05_lexToken_decimal _ rest hs hr
+      exact C05_lexToken_decimal _ rest hs (delim_numStop rest hr)
     · exact absurd hc (classifyReal_not_int _ _ _)
 
 /-- **C05 (whole-input lexing of a signed integer literal)**: `lex` of an optional minus sign followed by
